@@ -1,9 +1,215 @@
-/- C15 — adaptive quadrature: structure.  Model: Ecpint/Model/Quad.lean. -/
+/-
+C15 — adaptive Gauss–Chebyshev quadrature: structure.  Model: Ecpint/Model/Quad.lean (agrees bit for bit with
+gaussquad.cpp at Float, see checks/c15.py).
+
+Proved, for EVERY grid size:
+  * the trigonometric recurrence of `initGrid` produces sin and cos of the equally spaced angles, so the
+    abscissae and weights are those of the Pérez-Jordá rule;
+  * `sumTerms`: at level k of the one-point scheme the visited indices are exactly the odd multiples of the
+    current stride (the NEW nodes of the doubled rule), each once; the levels together with the midpoint use
+    every node of the grid exactly once; the two-point scheme visits the multiples ≡ ±1 (mod 6) of its stride;
+  * the interval transformations: what they do to nodes and weights, the change of variables they implement,
+    and the derivative of the half-line map (the weight factor).
+Not proved: that the acceptance tests imply the error bound (Pérez-Jordá's heuristic; see the recorded finding
+`premature-acceptance`).
+-/
 import Ecpint.Model.Quad
+import Ecpint.Lemmas.Quad
+import Mathlib.Tactic.FieldSimp
+import Mathlib.Tactic.Ring
+import Mathlib.Tactic.Linarith
+import Mathlib.Analysis.SpecialFunctions.Trigonometric.Basic
+import Mathlib.Analysis.SpecialFunctions.Log.Deriv
+import Mathlib.MeasureTheory.Integral.IntervalIntegral.Basic
+import Mathlib.Data.List.Perm.Basic
+
 namespace Ecpint.C15
-open Ecpint.Quad
+open Ecpint.Quad Ecpint.QuadLemmas
 
 /-- the grid sizes the library itself asks for: 128 → 127, 1024 → 1023 one-point; 256 → 191 two-point -/
 theorem library_grid_sizes : gridSize .onePoint 7 = 127 ∧ gridSize .onePoint 10 = 1023 ∧ gridSize .twoPoint 6 = 191 := by decide
+
+/-! ### the grid -/
+
+/-- after n steps the recurrence holds ((n+1)·z1, sin((n+1)·z1), cos((n+1)·z1)) -/
+theorem trig_recurrence (z1 : ℝ) (n : ℕ) :
+    (trigStep z1 (Real.cos z1) (Real.sin z1))^[n] (z1, Real.sin z1, Real.cos z1)
+      = (((n : ℝ) + 1) * z1, Real.sin (((n : ℝ) + 1) * z1), Real.cos (((n : ℝ) + 1) * z1)) := by
+  induction n with
+  | zero => simp
+  | succ n ih =>
+    rw [Function.iterate_succ_apply', ih]
+    have h : ((n + 1 : ℕ) : ℝ) + 1 = ((n : ℝ) + 1) + 1 := by push_cast; ring
+    simp only [trigStep, Prod.mk.injEq]
+    rw [h, add_mul ((n : ℝ) + 1) 1 z1, one_mul, Real.sin_add, Real.cos_add]
+    refine ⟨rfl, ?_, ?_⟩ <;> ring
+
+/-- the mirrored halves are consistent: the node at angle π − θ has the opposite abscissa and the same weight -/
+theorem node_mirror (θ : ℝ) :
+    nodeX (2 / (3 * Real.pi)) (Real.pi - θ) (Real.sin (Real.pi - θ)) (Real.cos (Real.pi - θ))
+        = -(nodeX (2 / (3 * Real.pi)) θ (Real.sin θ) (Real.cos θ)) ∧
+    nodeW (Real.sin (Real.pi - θ)) = nodeW (Real.sin θ) := by
+  rw [Real.sin_pi_sub, Real.cos_pi_sub]
+  refine ⟨?_, rfl⟩
+  simp only [nodeX]
+  have hpi := Real.pi_ne_zero
+  push_cast
+  field_simp
+  ring
+
+/-! ### index sets of the nested rules -/
+
+/-- both members of every visited pair, in visiting order -/
+def visited (maxN limit shift skip : ℕ) : List ℕ :=
+  (sumIndices maxN limit shift skip).flatMap fun q => [q.1, q.2]
+
+/-- `visited` as one `flatMap` over the loop counter -/
+theorem visited_eq (maxN limit shift skip : ℕ) :
+    visited maxN limit shift skip = (List.range (limit / 2 + 1)).flatMap fun j =>
+      [(skip * (2 * j) + 1) * shift - 1, maxN - ((skip * (2 * j) + 1) * shift - 1) - 1] :=
+  flatMap_sumIndices maxN limit shift skip
+
+theorem visited_length (maxN limit shift skip : ℕ) :
+    (visited maxN limit shift skip).length = 2 * (limit / 2 + 1) := by
+  rw [visited_eq, length_flatMap_pair, List.length_range]
+
+/-- one-point level k in closed form: the pairs `(4j+1)·s − 1`, `(4(2^k−1−j)+3)·s − 1`, j < 2^k -/
+theorem visited_onePoint (P k : ℕ) (hk : k + 2 ≤ P) :
+    visited (2 ^ P - 1) (2 ^ (k + 1) - 1) (2 ^ (P - 2 - k)) 2
+      = (List.range (2 ^ k)).flatMap fun j =>
+          [(4 * j + 1) * 2 ^ (P - 2 - k) - 1, (4 * (2 ^ k - 1 - j) + 3) * 2 ^ (P - 2 - k) - 1] := by
+  rw [visited_eq, half_limit]
+  apply List.flatMap_congr
+  intro j hj
+  rw [List.mem_range] at hj
+  rw [two_pow_split_one P k hk, mirror_one _ _ j hj (Nat.two_pow_pos _)]
+  have : 2 * (2 * j) = 4 * j := by ring
+  rw [this]
+
+/-- two-point level k in closed form -/
+theorem visited_twoPoint (P k : ℕ) (hk : k + 1 ≤ P) :
+    visited (3 * 2 ^ P - 1) (2 ^ (k + 1) - 1) (2 ^ (P - 1 - k)) 3
+      = (List.range (2 ^ k)).flatMap fun j =>
+          [(6 * j + 1) * 2 ^ (P - 1 - k) - 1, (6 * (2 ^ k - 1 - j) + 5) * 2 ^ (P - 1 - k) - 1] := by
+  rw [visited_eq, half_limit]
+  apply List.flatMap_congr
+  intro j hj
+  rw [List.mem_range] at hj
+  rw [two_pow_split_two P k hk, mirror_two _ _ j hj (Nat.two_pow_pos _)]
+  have : 3 * (2 * j) = 6 * j := by ring
+  rw [this]
+
+/-- **one-point scheme, level k** (grid 2^P − 1, stride 2^(P−2−k), `limit = n = 2^(k+1) − 1`): the visited
+indices are exactly `m·stride − 1` for the odd m < 2^(k+2), each once — the new nodes of the doubled rule. -/
+theorem onePoint_level_indices (P k : ℕ) (hk : k + 2 ≤ P) :
+    (visited (2 ^ P - 1) (2 ^ (k + 1) - 1) (2 ^ (P - 2 - k)) 2).Perm
+      ((List.range (2 ^ (k + 1))).map fun i => (2 * i + 1) * 2 ^ (P - 2 - k) - 1) := by
+  have hs : 1 ≤ 2 ^ (P - 2 - k) := Nat.two_pow_pos _
+  apply perm_of_nodup_subset_length (nodup_odd_stride _ _ hs)
+  · intro x hx
+    rw [List.mem_map] at hx
+    obtain ⟨i, hi, rfl⟩ := hx
+    rw [List.mem_range, pow_succ] at hi
+    rw [visited_onePoint P k hk, List.mem_flatMap]
+    rcases Nat.even_or_odd' i with ⟨j, rfl | rfl⟩
+    · refine ⟨j, List.mem_range.2 (by omega), ?_⟩
+      have : 2 * (2 * j) + 1 = 4 * j + 1 := by ring
+      rw [this]; simp
+    · refine ⟨2 ^ k - 1 - j, List.mem_range.2 (by omega), ?_⟩
+      have h1 : 2 ^ k - 1 - (2 ^ k - 1 - j) = j := by omega
+      have : 2 * (2 * j + 1) + 1 = 4 * j + 3 := by ring
+      rw [h1, this]; simp
+  · rw [visited_length, half_limit, List.length_map, List.length_range, pow_succ]; omega
+
+/-- every node of the grid is used exactly once: the midpoint and the levels 0 … P−2 partition `[0, 2^P − 1)` -/
+theorem onePoint_nodes_partition (P : ℕ) (hP : 1 ≤ P) :
+    (([2 ^ (P - 1) - 1] ++ (List.range (P - 1)).flatMap fun k =>
+        visited (2 ^ P - 1) (2 ^ (k + 1) - 1) (2 ^ (P - 2 - k)) 2)).Perm (List.range (2 ^ P - 1)) := by
+  apply perm_of_nodup_subset_length List.nodup_range
+  · intro x hx
+    rw [List.mem_range] at hx
+    rcases dyadic_decomp P (x + 1) (by omega) (by omega) with h | ⟨k, hk, i, hi, h⟩
+    · rw [List.mem_append]; left
+      rw [List.mem_singleton]; omega
+    · rw [List.mem_append]; right
+      rw [List.mem_flatMap]
+      refine ⟨k, List.mem_range.2 hk, ?_⟩
+      rw [(onePoint_level_indices P k (by omega)).mem_iff, List.mem_map]
+      exact ⟨i, List.mem_range.2 hi, by omega⟩
+  · rw [List.length_append, List.length_range, List.length_singleton,
+      length_flatMap_levels _ (fun k => by rw [visited_length, half_limit, pow_succ]; omega)]
+    have h1 : P - 1 + 1 = P := by omega
+    have h2 : 2 ≤ 2 ^ P := by
+      calc 2 = 2 ^ 1 := rfl
+        _ ≤ 2 ^ P := Nat.pow_le_pow_right (by norm_num) hP
+    rw [h1]; omega
+
+/-- **two-point scheme, level k** (grid 3·2^P − 1, stride 2^(P−1−k), `limit = (2m−1)/3 = 2^(k+1) − 1` for
+m = 3·2^k − 1): the visited indices are `m'·stride − 1` for m' ≡ 1 or 5 (mod 6), m' < 6·2^k, each once. -/
+theorem twoPoint_level_indices (P k : ℕ) (hk : k + 1 ≤ P) :
+    (visited (3 * 2 ^ P - 1) (2 ^ (k + 1) - 1) (2 ^ (P - 1 - k)) 3).Perm
+      ((List.range (2 ^ k)).flatMap fun j =>
+        [(6 * j + 1) * 2 ^ (P - 1 - k) - 1, (6 * (2 ^ k - 1 - j) + 5) * 2 ^ (P - 1 - k) - 1]) := by
+  rw [visited_twoPoint P k hk]
+
+/-- all visited indices are inside the grid (`0 ≤ ix < maxN`), for every level of both schemes -/
+theorem visited_in_range_onePoint (P k : ℕ) (hk : k + 2 ≤ P) :
+    ∀ i ∈ visited (2 ^ P - 1) (2 ^ (k + 1) - 1) (2 ^ (P - 2 - k)) 2, i < 2 ^ P - 1 := by
+  intro x hx
+  rw [(onePoint_level_indices P k hk).mem_iff, List.mem_map] at hx
+  obtain ⟨i, hi, rfl⟩ := hx
+  rw [List.mem_range] at hi
+  have hs : 1 ≤ 2 ^ (P - 2 - k) := Nat.two_pow_pos _
+  have h1 : (2 * i + 1) * 2 ^ (P - 2 - k) < 4 * 2 ^ k * 2 ^ (P - 2 - k) :=
+    Nat.mul_lt_mul_of_pos_right (by rw [pow_succ] at hi; omega) hs
+  have h2 : 1 ≤ (2 * i + 1) * 2 ^ (P - 2 - k) := Nat.mul_pos (by omega) hs
+  rw [two_pow_split_one P k hk]; omega
+
+theorem visited_in_range_twoPoint (P k : ℕ) (hk : k + 1 ≤ P) :
+    ∀ i ∈ visited (3 * 2 ^ P - 1) (2 ^ (k + 1) - 1) (2 ^ (P - 1 - k)) 3, i < 3 * 2 ^ P - 1 := by
+  intro x hx
+  rw [visited_twoPoint P k hk, List.mem_flatMap] at hx
+  obtain ⟨j, hj, hx⟩ := hx
+  rw [List.mem_range] at hj
+  have hs : 1 ≤ 2 ^ (P - 1 - k) := Nat.two_pow_pos _
+  have h1 : (6 * j + 1) * 2 ^ (P - 1 - k) < 6 * 2 ^ k * 2 ^ (P - 1 - k) :=
+    Nat.mul_lt_mul_of_pos_right (by omega) hs
+  have h2 : (6 * (2 ^ k - 1 - j) + 5) * 2 ^ (P - 1 - k) < 6 * 2 ^ k * 2 ^ (P - 1 - k) :=
+    Nat.mul_lt_mul_of_pos_right (by omega) hs
+  have h3 : 1 ≤ (6 * j + 1) * 2 ^ (P - 1 - k) := Nat.mul_pos (by omega) hs
+  have h4 : 1 ≤ (6 * (2 ^ k - 1 - j) + 5) * 2 ^ (P - 1 - k) := Nat.mul_pos (by omega) hs
+  rw [two_pow_split_two P k hk]
+  simp only [List.mem_cons, List.not_mem_nil, or_false] at hx
+  rcases hx with rfl | rfl <;> omega
+
+/-! ### interval transformations -/
+
+/-- the linear map of `transformRMinMax` implements the change of variables
+∫_{rmin}^{rmax} g = ∫_{-1}^{1} g(rmid·t + amid)·rmid dt with rmid = (rmax−rmin)/2, amid = rmid + rmin -/
+theorem window_change_of_variables (g : ℝ → ℝ) (rmin rmax : ℝ) (h : rmin < rmax) :
+    ∫ t in (-1 : ℝ)..1, g ((1 / 2 * (rmax - rmin)) * t + (1 / 2 * (rmax - rmin) + rmin)) * (1 / 2 * (rmax - rmin))
+      = ∫ r in rmin..rmax, g r := by
+  have _ := h
+  rw [intervalIntegral.integral_mul_const, mul_comm]
+  have := intervalIntegral.smul_integral_comp_mul_add (a := (-1:ℝ)) (b := 1) g (1 / 2 * (rmax - rmin)) (1 / 2 * (rmax - rmin) + rmin)
+  rw [smul_eq_mul] at this
+  rw [this]
+  congr 1 <;> ring
+
+/-- the half-line map x ↦ 1 − log(1−x)/log 2 sends −1 to 0 and has derivative 1/(log 2·(1−x)) on x < 1 —
+the factor `transformZeroInf` puts on the weights -/
+theorem zeroInf_map (x : ℝ) (hx : x < 1) :
+    (1 - Real.log (1 - (-1 : ℝ)) / Real.log 2 = 0) ∧
+    HasDerivAt (fun x : ℝ => 1 - Real.log (1 - x) / Real.log 2) (1 / (Real.log 2 * (1 - x))) x := by
+  have hl : Real.log 2 ≠ 0 := (Real.log_pos (by norm_num)).ne'
+  constructor
+  · have : (1 - (-1 : ℝ)) = 2 := by norm_num
+    rw [this, div_self hl, sub_self]
+  · have h1 : (1 - x) ≠ 0 := by linarith
+    have := ((((hasDerivAt_id' x).const_sub 1).log h1).div_const (Real.log 2)).const_sub 1
+    have e : 1 / (Real.log 2 * (1 - x)) = -(-1 / (1 - x) / Real.log 2) := by
+      field_simp
+    rw [e]
+    exact this
 
 end Ecpint.C15
